@@ -9,7 +9,13 @@ use std::sync::atomic::{AtomicBool, AtomicU64, Ordering};
 use std::sync::{Arc, Mutex};
 use std::time::{Duration, Instant};
 
-pub const REPO_BIN_DIR: &str = "/verif/harness/target/repo/debug";
+pub const REPO_BIN_DIR_DEFAULT: &str = "/verif/harness/target/repo/debug";
+/// Directory holding the erbium binaries built from /repo's working tree.
+/// `VCHECK_BIN_DIR` overrides it (used for long background campaigns that
+/// must not see a rebuild triggered by another check).
+pub fn repo_bin_dir() -> String {
+    std::env::var("VCHECK_BIN_DIR").unwrap_or_else(|_| REPO_BIN_DIR_DEFAULT.to_string())
+}
 
 pub type QKey = (Vec<Vec<u8>>, u16, u16);
 
@@ -352,7 +358,7 @@ impl DnsServer {
         let stderr_path = format!("{}.stderr", base);
         std::fs::write(&conf_path, config_yaml).map_err(|e| e.to_string())?;
         let errf = std::fs::File::create(&stderr_path).map_err(|e| e.to_string())?;
-        let bin = format!("{}/erbium-dns", REPO_BIN_DIR);
+        let bin = format!("{}/erbium-dns", repo_bin_dir());
         let child = std::process::Command::new(&bin)
             .arg(&conf_path)
             .env("RUST_LOG", log_level)
